@@ -15,7 +15,7 @@ FILL = 0x2e
 class ModelError(Exception):
     """the reference interpretation rejects the input / the values"""
     def __init__(self, kind, msg, name, cls, offset):
-        Exception.__init__(self, "%s: %s (%s.%s @%s)" % (kind, msg, cls, name, offset))
+        Exception.__init__(self, "%s: %s" % (kind, msg))
         self.kind = kind
         self.stack = [(offset, name, cls)]
         self.cands = None  # acceptable innermost (name, offset) alternatives, filled by the parser
@@ -377,7 +377,7 @@ class Parse:
         return ModelError(kind, msg, None, None, None)
 
     def need(self, cur, n):
-        if cur + n > len(self.raw):
+        if n > 0 and cur + n > len(self.raw):
             raise self.err("short", "need %d bytes at %d, have %d" % (n, cur, max(0, len(self.raw) - cur)))
 
     def parse_bits(self, run, vals, cur, path, pkt):
